@@ -77,6 +77,33 @@ func tracked(fn *ssa.Function) map[ssa.Value]bool {
 			}
 		}
 	}
+	// boolean phis that decide a branch (loop flags such as "more"/"done"), and the values flowing into them
+	for _, b := range fn.Blocks {
+		for _, in := range b.Instrs {
+			ph, ok := in.(*ssa.Phi)
+			if !ok {
+				break
+			}
+			if !isBoolType(ph.Type()) || ph.Referrers() == nil {
+				continue
+			}
+			cond := false
+			for _, u := range *ph.Referrers() {
+				if _, ok := u.(*ssa.If); ok {
+					cond = true
+				}
+			}
+			if !cond {
+				continue
+			}
+			t[ph] = true
+			for _, e := range ph.Edges {
+				if _, isc := strip(e).(*ssa.Const); !isc {
+					t[strip(e)] = true
+				}
+			}
+		}
+	}
 	// local cells of type error (named results, variables captured or spilled): the cell, its loads and the values stored
 	for _, b := range fn.Blocks {
 		for _, in := range b.Instrs {
@@ -133,11 +160,19 @@ func (f facts) known(v ssa.Value) (known, isNil bool) {
 	if isNilConst(v) {
 		return true, true
 	}
+	if bv, isc := constBool(v); isc {
+		return true, bv // for booleans the fact is the truth value
+	}
 	if f == "" {
 		return false, false
 	}
 	n, ok := f.parse()[valID(v)]
 	return ok, n
+}
+
+func isBoolType(t types.Type) bool {
+	b, ok := t.Underlying().(*types.Basic)
+	return ok && b.Kind() == types.Bool
 }
 
 // feasible reports whether edge b->Succs[k] is compatible with the facts.
@@ -154,6 +189,13 @@ func (f facts) feasible(b *ssa.BasicBlock, k int) bool {
 	if e := errNonNilEdge(c); e != nil {
 		if kn, isNil := f.known(e); kn && isNil {
 			return false
+		}
+	}
+	if c.Op == token.ILLEGAL && c.V != nil && isBoolType(c.V.Type()) {
+		if _, isc := strip(c.V).(*ssa.Const); !isc {
+			if kn, truth := f.known(c.V); kn && truth != c.Pos {
+				return false
+			}
 		}
 	}
 	return true
@@ -186,6 +228,9 @@ func (f facts) afterEdge(b *ssa.BasicBlock, k int) facts {
 				get()[valID(cell)] = false
 			}
 		}
+		if c.Op == token.ILLEGAL && c.V != nil && isBoolType(c.V.Type()) && tr[strip(c.V)] {
+			get()[valID(strip(c.V))] = c.Pos
+		}
 	}
 	// phi transfer
 	pi := -1
@@ -199,7 +244,7 @@ func (f facts) afterEdge(b *ssa.BasicBlock, k int) facts {
 		if !ok {
 			break
 		}
-		if !isErrorType(ph.Type()) || pi < 0 || pi >= len(ph.Edges) || !tr[ph] {
+		if !(isErrorType(ph.Type()) || isBoolType(ph.Type())) || pi < 0 || pi >= len(ph.Edges) || !tr[ph] {
 			continue
 		}
 		inc := strip(ph.Edges[pi])
@@ -250,9 +295,29 @@ func (f facts) afterInstr(in ssa.Instruction) facts {
 	if _, isPhi := in.(*ssa.Phi); isPhi {
 		return f // facts about phis are established by the incoming edge
 	}
+	if ex, isEx := in.(*ssa.Extract); isEx {
+		if _, ofCall := ex.Tuple.(*ssa.Call); ofCall {
+			return f // facts about a call's results are established when the callee returns
+		}
+	}
 	v, ok := in.(ssa.Value)
 	if !ok {
 		return f
+	}
+	if c, isCall := in.(*ssa.Call); isCall && c.Referrers() != nil {
+		// the call executes (again): what was known about its previous results no longer holds
+		var m map[string]bool
+		for _, rf := range *c.Referrers() {
+			if ex, ok := rf.(*ssa.Extract); ok && strings.Contains(string(f), valID(ex)) {
+				if m == nil {
+					m = f.parse()
+				}
+				delete(m, valID(ex))
+			}
+		}
+		if m != nil {
+			f = factsOf(m)
+		}
 	}
 	id := valID(v)
 	if !strings.Contains(string(f), id) {
@@ -292,6 +357,60 @@ func (f facts) withErrResult(site ssa.Instruction, isNil bool) facts {
 				m[valID(ex)] = isNil
 			}
 		}
+	}
+	return factsOf(m)
+}
+
+// withBoolResult records the truth of boolean result idx of call instruction site.
+func (f facts) withBoolResult(site ssa.Instruction, idx int, truth bool) facts {
+	c, ok := site.(*ssa.Call)
+	if !ok {
+		return f
+	}
+	tr := tracked(c.Parent())
+	if tr == nil {
+		return f
+	}
+	m := f.parse()
+	sig := c.Call.Signature()
+	if sig != nil && sig.Results().Len() == 1 {
+		if tr[c] {
+			m[valID(c)] = truth
+		}
+	} else if refs := c.Referrers(); refs != nil {
+		for _, rf := range *refs {
+			if ex, ok := rf.(*ssa.Extract); ok && ex.Index == idx && tr[ex] {
+				m[valID(ex)] = truth
+			}
+		}
+	}
+	return factsOf(m)
+}
+
+// dropCallResults forgets what was known about the results of an earlier execution of call c.
+func (f facts) dropCallResults(c *ssa.Call) facts {
+	if f == "" {
+		return f
+	}
+	var m map[string]bool
+	del := func(v ssa.Value) {
+		if strings.Contains(string(f), valID(v)) {
+			if m == nil {
+				m = f.parse()
+			}
+			delete(m, valID(v))
+		}
+	}
+	del(c)
+	if c.Referrers() != nil {
+		for _, rf := range *c.Referrers() {
+			if ex, ok := rf.(*ssa.Extract); ok {
+				del(ex)
+			}
+		}
+	}
+	if m == nil {
+		return f
 	}
 	return factsOf(m)
 }
